@@ -40,11 +40,16 @@ class Compiler:
             "compiler": self,
             "link_base": link_base,
             "internal_symbols_list": [],
-            "extern_all": None
+            "extern_all": None,
+            # Shared by all per-statement copies of the state; tells symbol
+            # resolution whether this file may still define more names
+            "file_status": {"compiled": False}
         }
         self.internal_prefix_to_state[self.next_internal_symbol_prefix] = state
         self.next_internal_symbol_prefix += 1
-        return self.compile_block(state, file.body, start)
+        code = self.compile_block(state, file.body, start)
+        state["file_status"]["compiled"] = True
+        return code
 
 
     def compile_block(self, state, block, start):
